@@ -9,6 +9,7 @@ package c05
 //	0 signer  1 fee collector  2 EOA recipient R  3 contract X  4 beneficiary B
 //	5 N = CreateAddress(signer, nonce)  6 contract Y (frame-revert shape)  7 B2  8 C3  9 driver contract D
 //	10, 11 second and third signer  12 factory F  13 XF = address of F's next CREATE / CREATE2
+//	14 wasm contract W (a 32-byte bank address)  15 PH = the 20-byte account made of the last 20 bytes of W
 //
 // plus tx code, VmError flag and MsgEthereumTxResponse.GasUsed (EventEthereumTx.gas_used).
 //
@@ -18,6 +19,11 @@ package c05
 // calls itself; the inner frame calls the precompile (whoAmI), sends 1 unibi to C3 and reverts.
 
 import (
+	"os"
+
+	wasmkeeper "github.com/CosmWasm/wasmd/x/wasm/keeper"
+	wasm "github.com/CosmWasm/wasmd/x/wasm/types"
+
 	"encoding/hex"
 	"encoding/json"
 	"math/big"
@@ -42,6 +48,7 @@ import (
 	"github.com/NibiruChain/nibiru/v2/x/evm"
 	"github.com/NibiruChain/nibiru/v2/x/evm/embeds"
 	"github.com/NibiruChain/nibiru/v2/x/evm/evmtest"
+	"github.com/NibiruChain/nibiru/v2/x/evm/precompile"
 )
 
 type c05Tx struct {
@@ -61,6 +68,8 @@ type c05Tx struct {
 	FE      string    `json:"fe"`     // target f: endowment of the creation
 	FInit   string    `json:"finit"`  // target f: init code outcome ok | revert | oog | invalid
 	FC2     bool      `json:"fc2"`    // target f: CREATE2 instead of CREATE
+	WAmt    string    `json:"wamt"`   // target w: unibi attached as funds to the wasm precompile `execute` of contract W
+	WBad    bool      `json:"wbad"`   // target w: execute message the wasm contract does not know (fails)
 	Steps   []c05Step `json:"steps"` // target d: calls the driver contract D makes to X inside this one tx
 }
 
@@ -141,6 +150,7 @@ type c05World struct {
 	deployer evmtest.EthPrivKeyAcc
 	dnonce   uint64
 	X, Y, D, F gethcommon.Address
+	W        sdk.AccAddress // wasm counter contract (32-byte address)
 	salt     int64
 	xAlive   bool
 	B2, C3   gethcommon.Address
@@ -178,12 +188,33 @@ func newC05World(t *testing.T) *c05World {
 	w.Y = w.deploy(t, yinit, 100_000)
 	w.D = w.deploy(t, c05DInit, 1_000_000)
 	w.F = w.deploy(t, c05FInit, 1_000_000)
+	repo := os.Getenv("VERIF_REPO")
+	if repo == "" {
+		repo = "/repo"
+	}
+	wasmCode, err := os.ReadFile(repo + "/x/evm/precompile/test/hello_world_counter.wasm")
+	if err != nil {
+		t.Fatal(err)
+	}
+	pk := wasmkeeper.NewDefaultPermissionKeeper(c.App.WasmKeeper)
+	codeID, _, err := pk.Create(c.Ctx(), w.deployer.NibiruAddr, wasmCode, &wasm.AccessConfig{Permission: wasm.AccessTypeEverybody})
+	if err != nil {
+		t.Fatal(err)
+	}
+	w.W, _, err = pk.Instantiate(c.Ctx(), codeID, w.deployer.NibiruAddr, w.deployer.NibiruAddr, []byte(`{"count": 0}`), "counter", sdk.Coins{})
+	if err != nil {
+		t.Fatal(err)
+	}
 	c.EndBlock()
 	return w
 }
 
 func (w *c05World) bal(a gethcommon.Address) *big.Int {
-	return w.c.App.BankKeeper.GetBalance(w.c.Ctx(), eth.EthAddrToNibiruAddr(a), "unibi").Amount.BigInt()
+	return w.balNibi(eth.EthAddrToNibiruAddr(a))
+}
+
+func (w *c05World) balNibi(a sdk.AccAddress) *big.Int {
+	return w.c.App.BankKeeper.GetBalance(w.c.Ctx(), a, "unibi").Amount.BigInt()
 }
 
 func (w *c05World) encode(msgs ...*evm.MsgEthereumTx) ([]byte, error) {
@@ -354,6 +385,27 @@ func (w *c05World) runCase(t *testing.T, cs c05Case) ([]c05Der, []c05Obs) {
 				big.NewInt(w.salt).FillBytes(data[128:160])
 				data[191] = byte(len(fInit))
 				data = append(data, fInit...)
+			case "w":
+				// the signer calls the wasm precompile directly: execute(W, msg, funds) moves `wamt` unibi from the
+				// signer to the wasm contract through the bank keeper inside the EVM tx
+				a := precompile.PrecompileAddr_Wasm
+				to = &a
+				toID = 14
+				hasCode = true
+				wmsg := []byte(`{"increment":{}}`)
+				if tx.WBad {
+					wmsg = []byte(`{"no_such_message":{}}`)
+					expect = "fail"
+				}
+				funds := []precompile.WasmBankCoin{}
+				if amt := bigOf(tx.WAmt); amt.Sign() > 0 {
+					funds = append(funds, precompile.WasmBankCoin{Denom: "unibi", Amount: amt})
+				}
+				in, err := embeds.SmartContract_Wasm.ABI.Pack("execute", w.W.String(), wmsg, funds)
+				if err != nil {
+					t.Fatal(err)
+				}
+				data = in
 			case "create":
 				toID = 5
 				hasCode = true
@@ -391,6 +443,9 @@ func (w *c05World) runCase(t *testing.T, cs c05Case) ([]c05Der, []c05Obs) {
 				}
 				if tx.Target == "f" {
 					gas = intrinsic + 700_000
+				}
+				if tx.Target == "w" {
+					gas = intrinsic + 2_000_000
 				}
 			case "large":
 				gas = blockGas
@@ -458,6 +513,7 @@ func (w *c05World) runCase(t *testing.T, cs c05Case) ([]c05Der, []c05Obs) {
 			for _, a := range accts {
 				out = append(out, w.bal(a).String())
 			}
+			out = append(out, w.balNibi(w.W).String(), w.bal(gethcommon.BytesToAddress(w.W.Bytes())).String())
 			return out, c.App.BankKeeper.GetSupply(c.Ctx(), "unibi").Amount.String()
 		}
 		o.Before, o.SupplyB = snap()
@@ -529,8 +585,11 @@ func genC05Tx(r *Rng) c05Tx {
 	case 4: // huge
 		tx.Cap = "1000000000000000000"
 	}
-	tx.Target = []string{"eoa", "x", "create", "y", "d", "f"}[r.Pick(5, 8, 2, 1, 4, 4)]
+	tx.Target = []string{"eoa", "x", "create", "y", "d", "f", "w"}[r.Pick(5, 8, 2, 1, 4, 4, 3)]
 	switch tx.Target {
+	case "w":
+		tx.WAmt = pickStr(r, "0", "1", "7", "7", "50", "123456")
+		tx.WBad = r.Chance(1, 5)
 	case "f":
 		// the factory pre-funds the address of its next creation, then creates there with an endowment
 		tx.FV = pickStr(r, "0", "3000000000000", "1000000000000", "2000000000001", "999999999999", rndWei(r, 9))
@@ -555,7 +614,7 @@ func genC05Tx(r *Rng) c05Tx {
 	case "create":
 		tx.Mode = r.Pick(3, 1)
 	}
-	if tx.Target == "d" || tx.Target == "f" {
+	if tx.Target == "d" || tx.Target == "f" || tx.Target == "w" {
 		tx.GasMode = []string{"below", "exact", "ample"}[r.Pick(1, 1, 14)]
 	} else if tx.Target == "eoa" {
 		tx.GasMode = []string{"below", "exact", "plus", "ample", "large", "over"}[r.Pick(2, 4, 3, 3, 1, 1)]
@@ -571,7 +630,7 @@ func genC05Tx(r *Rng) c05Tx {
 			tx.Ty = 0
 		}
 	}
-	if tx.Target == "y" {
+	if tx.Target == "y" || tx.Target == "w" {
 		tx.Value = "0"
 	}
 	if (tx.Target == "d" || tx.Target == "f") && (strings.HasPrefix(tx.Value, "bal-") || len(tx.Value) > 15) {
@@ -588,6 +647,7 @@ func genC05Bundle(r *Rng) c05Tx {
 		m := genC05Tx(r.Fork())
 		m.Steps = nil
 		m.FV, m.FE, m.FInit, m.FC2 = "", "", "", false
+		m.WAmt, m.WBad = "", false
 		m.Signer = r.Intn(3)
 		if i > 0 && r.Chance(1, 4) {
 			m.Signer = subs[0].Signer
@@ -684,6 +744,12 @@ func TestC05(t *testing.T) {
 		ftx("3000000000000", "7000000000000", "ok", false), ftx("2000000000001", "5000000000001", "oog", false)}})
 	run(c05Case{Fund: "1000000000000", RBal: "0", Txs: []c05Tx{ftx("3000000000000", "7000000000000", "invalid", true),
 		ftx("1000000000000", "7000000000000", "revert", true), ftx("0", "7000000000000", "revert", false), ftx("3000000000000", "4000000000000", "ok", true)}})
+	// … a bank send inside an EVM tx whose recipient is NOT a 20-byte address: the signer calls the wasm precompile
+	// `execute` with unibi funds for a wasm contract (32-byte address), three times, then a failing execute
+	wtx := func(amt string, bad bool) c05Tx {
+		return c05Tx{Ty: 0, GasMode: "ample", Gp: base, Tip: "0", Cap: "0", Value: "0", Target: "w", W: "0", WAmt: amt, WBad: bad}
+	}
+	run(c05Case{Fund: "1000000000000", RBal: "0", Txs: []c05Tx{wtx("7", false), wtx("7", false), wtx("0", false), wtx("5", true)}})
 	// … one Cosmos tx bundling messages of different signers (each pays for its own gas) and of one signer
 	sub := func(signer int, gm string, gasadd int, gp, value, target string, mode int, w string) c05Tx {
 		return c05Tx{Signer: signer, Ty: 0, GasMode: gm, GasAdd: gasadd, Gp: gp, Tip: "0", Cap: "0", Value: value, Target: target, Mode: mode, W: w}
